@@ -227,7 +227,10 @@ func keySpecs(tier string) []*spec {
 		fs := []fieldSpec{{"PublicKey", []string{"set", "nil"}}, {"N", ns}, {"E", es}}
 		out = append(out, fieldsSpec("json.RSAPublicKey", "statement", tier, fs, true, func(a []int) (any, string) {
 			if a[0] == 1 {
-				return &jsonKeys.RSAPublicKey{}, ""
+				// absent key: the JSON schema always carries exponent/modulus/length, so it
+				// decodes as the key N=0,E=0 (coordinator decision: information, like the other
+				// nil mandatory members)
+				return &jsonKeys.RSAPublicKey{}, oodMand
 			}
 			ood := ""
 			if ns[a[1]] == "nil" || es[a[2]] == "nil" {
